@@ -793,10 +793,12 @@ class spawn(SpawnBase):
             p.interact()
         '''
 
-        # Flush the buffer.
-        self.write_to_stdout(self.buffer)
+        # Flush the pending text - all of it, not just the part the last
+        # search kept in its search buffer - and forget it: it has been
+        # handed to the user.
+        self.write_to_stdout(self._before.getvalue())
         self.stdout.flush()
-        self._buffer = self.buffer_type()
+        self.buffer = self.string_type()
         mode = tty.tcgetattr(self.STDIN_FILENO)
         tty.setraw(self.STDIN_FILENO)
         if escape_character is not None and PY3:
